@@ -81,7 +81,7 @@ fn main() {
     }
     let mut rng = Rng::new(args.seed);
     let n = args.n(700, 30000);
-    let cfg = GenCfg { txn_weight: 10, savepoint_weight: 10, index_ddl_in_txn: false, len_lo: 6, len_hi: 24 };
+    let cfg = GenCfg { txn_weight: 10, savepoint_weight: 10, index_ddl_in_txn: true, len_lo: 6, len_hi: 24 };
     for i in 0..n {
         let mut r = rng.fork();
         let c = gen_case(&mut r, &cfg);
